@@ -170,10 +170,12 @@ def match_values(vec_a, vec_b, collocation_distance=1e-4) -> np.ndarray:
         np.searchsorted(vec_a[ind_sort], vec_b, side="right"), vec_a.shape[0] - 1
     )
     nearests = np.c_[ind, ind - 1]
-    match = np.where(
-        np.abs(vec_a[ind_sort][nearests] - vec_b[:, None]) < collocation_distance
-    )
-    indices = np.c_[ind_sort[nearests[match[0], match[1]]], match[0]]
+    # A query value matches one stored value at most: the nearer of its two neighbours
+    distances = np.abs(vec_a[ind_sort][nearests] - vec_b[:, None])
+    closest = np.argmin(distances, axis=1)
+    rows = np.arange(distances.shape[0])
+    match = np.where(distances[rows, closest] < collocation_distance)[0]
+    indices = np.c_[ind_sort[nearests[match, closest[match]]], match]
     return indices
 
 
